@@ -7,8 +7,9 @@ set -u
 cd "$(dirname "$0")"
 . ./env.sh
 TESTS=0; TIER=quick
-SEEDED=0
-while getopts "tT:s" o; do case $o in t) TESTS=1;; T) TIER=$OPTARG;; s) SEEDED=1;; esac; done; shift $((OPTIND-1))
+SEEDED=0; EQUIV=0
+while getopts "tT:sq" o; do case $o in t) TESTS=1;; T) TIER=$OPTARG;; s) SEEDED=1;; q) SEEDED=1; EQUIV=1;; esac; done; shift $((OPTIND-1))
+# -q: arguments are seeded_equiv/<name> directories holding a property-PRESERVING change: the check must stay quiet
 # -s: arguments are seeded/<name> directories (patch.diff + meta.json with "property"); otherwise property ids
 IDS=${*:-$(ls mutants 2>/dev/null)}
 pass=0; fail=0; summary=""
@@ -20,7 +21,7 @@ for ARG in $IDS; do
   fi
   for p in $PATCHES; do
     [ -f "$p" ] || continue
-    name=$(basename $p .patch); [ $SEEDED = 1 ] && name=$(basename $ARG)
+    name=$(basename $p .patch); [ $SEEDED = 1 ] && name=$(basename $ARG); [ $EQUIV = 1 ] && name=$name.equiv
     tmp=$(mktemp -d $VERIF_WORK/mut.XXXXXX); mkdir -p $tmp/repo
     for f in $(grep '^+++ b/' $p | sed 's,^+++ b/,,'); do mkdir -p $tmp/repo/$(dirname $f); cp $VERIF_REPO/$f $tmp/repo/$f; done
     if ! patch -s -p1 -d $tmp/repo < $p; then echo "MUTANT $ID/$name: patch does not apply"; fail=$((fail+1)); rm -rf $tmp; continue; fi
